@@ -253,8 +253,9 @@ FAMILIES["C19"] = dict(
 )
 
 FAMILIES["C18"] = dict(
-    g=[G("MC_C18", "MC_C18_quick.cfg", "MC_C18_thorough.cfg")],
-    v=[dict(profile="num", n={"quick": 4000, "thorough": 80000})],
+    g=[G("MC_C18", "MC_C18_quick.cfg", "MC_C18_thorough.cfg"), G("MC_C18N", "MC_C18N_quick.cfg", "MC_C18N_thorough.cfg")],
+    v=[dict(profile="num", n={"quick": 4000, "thorough": 80000}), dict(profile="numfmt", n={"quick": 6000, "thorough": 150000})],
+    trace_by_ev={"Num": "TraceNum"},
     level_text=("$number is an acceptor (-? digits (. digits)? ([eE][-+]? digits)?) plus an exact value, $round is half-to-even on the decimal form at digit p (negative p allowed), $floor/$ceil/$abs/$sqrt/$power are exact on rationals with errors instead of NaN/infinity, $formatBase is repeated division of the half-even rounded integer - all TLA+ operators on exact rationals (JLibNum). "
                 "TLC checks the round trip $number($string(x)) = x and the tie rules on the specification and enumerates every string of <= 4 (6 thorough) characters over {0 1 9 - + . e E} for $number, 184 decimals incl. exact ties x precisions -4..6 for $round, integers and halves x bases 0..40 incl. fractional for $formatBase; every case is replayed into the real code and validated. "
                 "$formatNumber is specified on decimal digit sequences (JNumFmt) and validated by its own trace module."),
